@@ -17,6 +17,7 @@ import (
 	"go/format"
 	"go/parser"
 	"go/token"
+	"math"
 	"os"
 	"os/exec"
 	"path"
@@ -769,7 +770,7 @@ func gencodeSchema(seed uint64, pkg, fileName, goPkg string) *descriptorpb.FileD
 }
 
 // corpus (always first): the F12 witness and the other classes found by this check
-const gencodeCorpusSize = 10
+const gencodeCorpusSize = 11
 
 func gencodeCorpus(idx int, pkg, fileName, goPkg string) *descriptorpb.FileDescriptorProto {
 	opt := descriptorpb.FieldDescriptorProto_LABEL_OPTIONAL.Enum()
@@ -844,6 +845,12 @@ func gencodeCorpus(idx int, pkg, fileName, goPkg string) *descriptorpb.FileDescr
 		fd.MessageType = []*descriptorpb.DescriptorProto{{Name: proto.String("M"), Field: []*descriptorpb.FieldDescriptorProto{f("a", 1, i32), f("bb", 2, i32), f("reset", 3, i32)}}}
 		fd.SourceCodeInfo = &descriptorpb.SourceCodeInfo{Location: []*descriptorpb.SourceCodeInfo_Location{
 			{Path: []int32{4, 0, 2, 2}, Span: []int32{1, 0, 1}, LeadingComments: proto.String("\n")}}}
+	case 10: // FQ7: [default = -0] on a floating-point field
+		d := f("d", 1, descriptorpb.FieldDescriptorProto_TYPE_DOUBLE.Enum())
+		d.DefaultValue = proto.String("-0")
+		fl := f("f", 2, descriptorpb.FieldDescriptorProto_TYPE_FLOAT.Enum())
+		fl.DefaultValue = proto.String("-0")
+		fd.MessageType = []*descriptorpb.DescriptorProto{{Name: proto.String("M"), Field: []*descriptorpb.FieldDescriptorProto{d, fl}}}
 	default:
 		return nil
 	}
@@ -943,6 +950,7 @@ func gencodeRun(fd *descriptorpb.FileDescriptorProto, param string) (resp *plugi
 //	FQ4  two package-level declarations with the same underscore-joined Go name (M.X and M_X, M_builder,
 //	     a nested enum value M_Value and the oneof wrapper type M_Value, ...), by protogen's own GoIdents
 //	FQ5  an enum that sets features.enum_type itself (internal/filedesc only inherits enum features)
+//	FQ7  a float/double field with [default = -0] (the generated constant float64(-0) is +0)
 //	FQ6  a comment that consists of blank lines only (the single go/printer pass is then not a gofmt fixed point)
 func gencodeKnown(fd *descriptorpb.FileDescriptorProto, gen *protogen.Plugin) map[string]bool {
 	known := map[string]bool{}
@@ -1001,6 +1009,11 @@ func gencodeKnown(fd *descriptorpb.FileDescriptorProto, gen *protogen.Plugin) ma
 			}
 			open := m.APILevel != gofeaturespb.GoFeatures_API_OPAQUE
 			for _, f := range m.Fields {
+				if k := f.Desc.Kind(); (k == protoreflect.FloatKind || k == protoreflect.DoubleKind) && f.Desc.HasDefault() {
+					if d := f.Desc.Default().Float(); d == 0 && math.Signbit(d) {
+						known["FQ7"] = true
+					}
+				}
 				if f.Oneof != nil && !f.Oneof.Desc.IsSynthetic() {
 					pkgIdents[f.GoIdent.GoName]++ // oneof wrapper type
 				}
@@ -1154,6 +1167,7 @@ func gencodeReport(c *Ctx, u *gencodeUnit, kind string, what string, extra ...st
 		"gofmt":   {"FQ1", "FQ6"},
 		"parse":   {"FQ1"},
 		"closed":  {"FQ5"},
+		"negzero": {"FQ7"},
 	}
 	for _, id := range explains[kind] {
 		if u.known[id] {
@@ -1479,6 +1493,10 @@ func famGencode(c *Ctx) {
 				kind := "cmp"
 				if strings.HasPrefix(parts[2], "enum IsClosed") {
 					kind = "closed"
+				}
+				if n := len(parts); strings.HasPrefix(parts[2], "generated getter differs") && n >= 2 &&
+					((parts[n-2] == "d0" && parts[n-1] == "d8000000000000000") || (parts[n-2] == "f0" && parts[n-1] == "f80000000")) {
+					kind = "negzero" // the getter returns +0 where the declared default is -0
 				}
 				if u != nil {
 					gencodeReport(c, u, kind, parts[2], parts[3:]...)
